@@ -1,6 +1,7 @@
 """./check configuration for C18 (see verif_props.py)."""
 
-PROP = {'module': 'GolibsVerif.Theorems.C18',
+PROP = {'race': True,
+ 'module': 'GolibsVerif.Theorems.C18',
  'namespace': 'GolibsVerif.C18',
  'rule': 'C18.sh: signal sequences x outcome vectors (nil/error/panic per service) against the real SignalHandler with a fake notifier and '
          'fake services; non-trivial = a shutdown signal reaches a handler with >= 1 service, or non-shutdown signals were delivered.  '
